@@ -377,12 +377,21 @@ def ok_exit_blocks(P, fn):
 # ---------------------------------------------------------------------------------------
 # guards
 
-_CMP_NAMES = {"eq", "ne", "lt", "le", "gt", "ge", "cmp", "is_zero", "equal", "is_native_token",
+_CMP_NAMES = {"eq", "ne", "lt", "le", "gt", "ge", "cmp", "is_zero",
               "contains", "is_some", "is_none", "is_empty", "any", "all"}
+# workspace predicates resolved structurally by names.py: {function path: "equal" | "is_native_token"}
+CMP_ALIASES = {}
 
 
 def cmp_kind(callee):
     if not isinstance(callee, str):
+        return None
+    if callee in CMP_ALIASES:
+        return CMP_ALIASES[callee]
+    g = generic_path(callee)
+    if g in CMP_ALIASES:
+        return CMP_ALIASES[g]
+    if g.startswith(("haloswap::", "halo_pair::", "halo_factory::", "halo_router::")):
         return None
     n = last_seg(callee)
     return n if n in _CMP_NAMES else None
@@ -489,9 +498,18 @@ def agg_sites(fn, pred=None):
                     yield b, i, st
 
 
-MSG_ADT = re.compile(r"^(cosmwasm_std::(\S*::)?(CosmosMsg|WasmMsg|BankMsg|SubMsg|StakingMsg|DistributionMsg|IbcMsg|GovMsg|ReplyOn)|"
-                     r"cw20::\S*Cw20ExecuteMsg|haloswap::pair::(ExecuteMsg|Cw20HookMsg)|haloswap::router::(ExecuteMsg|Cw20HookMsg)|"
-                     r"haloswap::factory::ExecuteMsg)$")
+_STD_MSG_ADT = re.compile(r"^(cosmwasm_std::(\S*::)?(CosmosMsg|WasmMsg|BankMsg|SubMsg|StakingMsg|DistributionMsg|IbcMsg|GovMsg|ReplyOn)|"
+                          r"cw20::\S*Cw20ExecuteMsg)$")
+# the workspace's own wire message enums (ExecuteMsg / cw20 hook enums), discovered by names.py from the entry points
+WS_MSG_ADTS = set()
+
+
+class _MsgAdt:
+    def match(self, path):
+        return bool(_STD_MSG_ADT.match(path)) or path in WS_MSG_ADTS
+
+
+MSG_ADT = _MsgAdt()
 
 
 def adt_short(path):
